@@ -33,6 +33,9 @@ type Client struct {
 	stopped      chan struct{}
 }
 
+// maxSidDigits is the maximum number of digits of a subscription id (int64).
+const maxSidDigits = 19
+
 // Subscription implements the mq.Unsubscriber interface.
 type Subscription struct {
 	c   *Client
@@ -191,6 +194,13 @@ func (c *Client) SendRequest(subj string, payload []byte, cb mq.Response) {
 		return
 	}
 
+	// The server limits the control line arguments, "<subject> <reply> <size>",
+	// including the separators and the digits of the payload size.
+	if len(subj)+len(inbox)+2+len(strconv.Itoa(len(payload))) > nats.MAX_CONTROL_LINE_SIZE {
+		go cb("", nil, mq.ErrSubjectTooLong)
+		return
+	}
+
 	c.mu.Lock()
 	defer c.mu.Unlock()
 
@@ -217,6 +227,12 @@ func (c *Client) SendRequest(subj string, payload []byte, cb mq.Response) {
 func (c *Client) Subscribe(namespace string, cb mq.Response) (mq.Unsubscriber, error) {
 	// Validate max control line size
 	if len(namespace) > nats.MAX_CONTROL_LINE_SIZE-2 {
+		return nil, mq.ErrSubjectTooLong
+	}
+
+	// The server limits the control line arguments, "<namespace>.* <sid>",
+	// including the separator and the digits of the subscription id.
+	if len(namespace)+len(".* ")+maxSidDigits > nats.MAX_CONTROL_LINE_SIZE {
 		return nil, mq.ErrSubjectTooLong
 	}
 
